@@ -185,8 +185,9 @@ SPECS = {
         st.fixed_dictionaries(
             {
                 "time_decay_factor": st.sampled_from([0.5, 0.8, 0.9, 0.95]),
-                "warning_level": st.sampled_from([0.1, 0.2, 0.3]),
-                "detect_level": st.sampled_from([0.01, 0.05, 0.1]),
+                # independent draws: a warning level stricter than the detection level is a legal setting too
+                "warning_level": st.sampled_from([0.01, 0.1, 0.2, 0.3]),
+                "detect_level": st.sampled_from([0.01, 0.05, 0.1, 0.2]),
                 "burn_in": st.integers(0, 20),
                 "num_mc": st.integers(5, 30),
                 "subsample": st.integers(1, 4),
